@@ -50,6 +50,7 @@ impl<A: Ord + Clone> CmRDT for GCounter<A> {
     closed spec fn cm_inv(&self) -> bool { self.inner.cm_inv() }
     open spec fn cm_pre(&self, op: &Dot<A>) -> bool { true }
     open spec fn cm_post(old_: &Self, op: &Dot<A>, new_: &Self) -> bool { true }
+    open spec fn cm_vpre(&self, op: &Dot<A>) -> bool { true }
 
 //@extract fn src/gcounter.rs "CmRDT for GCounter" validate_op
     fn validate_op(&self, _op: &Self::Op) -> /*@ (r: @*/ Result<(), Self::Validation> /*@ ) @*/
